@@ -54,6 +54,11 @@ CHECKS = {
          "Bounded-exhaustive conformance of the real diffing with a model-checked client semantics; a violation is a real mutation after which a client that applied the published events differs from a fresh get, an event out of range when applied, an event for an unchanged representation, or an event on a wrong resource id.",
          "Values are canonical JSON texts (atoms); a create event makes the client fetch; served representation = response to a real get request.",
          "4.3 C10"),
+ "C11": ("storesim", "model_checking",
+         "TLA+ store specification (ResStore.tla: sequential per-id map reference SeqStep/FirstBad; ResStoreConc.tla: goroutines opening read/write transactions under the per-id lock): TLC model-checks ExclusiveWrite and Chain over all interleavings of the bound; random sequential histories and concurrent histories (reduced to per-id sequential histories via the order in which Write/Read returned, with an interval-overlap check) on badgerstore (8 configurations, real BadgerDB) and mockstore are judged call by call by TLC (TraceStore.tla)",
+         "Model checking of the transaction/lock design plus conformance of every call result, read value and change callback of real store histories with the map reference; a violation is a real call whose result, value or callbacks deviate, or two overlapping transactions on one id.",
+         "Values are atoms; when two failure reasons coincide (wrong type on an existing/missing id, empty id) either error is accepted; mockstore is untyped.",
+         "4.3 C11"),
  "C15": ("qevent", "model_checking",
          "TLA+ query-event specification (ResQueryEvent.tla: subscribe, deliver, listener take/enqueue, timer, drain, end-with-nil, callback, release): TLC model-checks AtMostOneReply/NilAtMostOnce/NilLast/FailedSub and the liveness properties Answered/Ends/Released; counterexamples of the shipped design (ListenerEndsQuery=FALSE) and tlc -simulate behaviours of the repaired design are replayed on the real service through gates in the listener and the expiry path; random histories, subscription failures, long histories; one record per real query event judged by TLC (TraceQueryObs.tla)",
          "Exhaustive model checking (3 requests, channel capacity 2, failing subscription) with safety and liveness, bound to the code by gate replay of model behaviours and TLC-judged records of real query events; a violation is a real query event with a missing/duplicate reply, a missing, repeated or non-final nil call, or a listener goroutine left running.",
